@@ -287,8 +287,66 @@ def gen_c02(tier, seed):
     return gen_histories(tier, seed, "c02")
 
 
+FIFO_SAFE = {"reset", "init", "mode", "d1", "d2", "d1p", "d2p", "lut", "busy", "status"}
+
+
+def fifo_twins(lines, every=1):
+    """twins of 12.48in scenario lines run on a BUFFERED bus (`bus=fifo`: `SpiBus::write` returns
+    before the bytes are on the wire, as embedded-hal 1.0 allows; they reach the chips at the next
+    `flush`, with the pin levels of that moment).  A driver that flushes before it moves a chip
+    select or D/C line produces the same trace on both buses.  Only calls that do not poll BUSY
+    (the driver polls right after a command without flushing — outside these properties)."""
+    out = []
+    n = 0
+    for l in lines:
+        if "panel=epd12in48b_v2" not in l or "fault=-" not in l:
+            continue
+        ops = l.split(" ops=", 1)[1].split(";")
+        if all(o.split(",")[0] in FIFO_SAFE for o in ops):
+            if n % every == 0:
+                out.append(re.sub(r"^id=(\S+)", r"id=\1-fifo", l).replace(" ops=", " bus=fifo ops=", 1))
+            n += 1
+    return out
+
+
+def big_lines(prefix, tier, seed, kinds):
+    """scenario lines of the 12.48in driver taken from C15's generator (kinds: letters of the id
+    classes f = full frames, w = grid/seam windows, q = sub-display rectangles, p/m = public calls)"""
+    pat = re.compile(r"id=c15-([a-z])")
+    out = []
+    for l in gen_c15_core(tier, seed)["v3"]:
+        m = pat.match(l)
+        if m and m.group(1) in kinds:
+            out.append(l.replace("id=c15-", f"id={prefix}-big-", 1))
+    return out + fifo_twins(out, every=2 if tier == "quick" else 1)
+
+
+def big_c09_lines(tier, seed):
+    """protocol-respecting call sequences of the 12.48in driver with refreshes at every position"""
+    rnd = random.Random(seed * 7919 + 909)
+    BIG = "panel=epd12in48b_v2 delay=none raise=02,04,12 busylvl=0 fault=- scribble=0"
+    calls = ["d1,r:1:163", "d2,r:2:326", "d1p,640,488,16,8,r:3:4", "refresh", "brefresh;busy", "refreshp,640,480,16,24", "brefreshp,0,0,64,8;busy",
+             "poweroff", "mode,0101", "lut,c,r:1:10", "status", "hibernate;reset;init,0000", "reset;init,0010"]
+    lines = []
+    k = 0
+    for a in calls:
+        for b in calls:
+            ops = ["reset", "init,0000"] + a.split(";") + b.split(";") + ["refresh"]
+            lines.append(f"id=c09-big-{k} {BIG} sched={sched_for(rnd, 10, 2)} ops=" + ";".join(ops))
+            k += 1
+    for _ in range(40 if tier == "quick" else 400):
+        seq = [o for c in [rnd.choice(calls) for _ in range(rnd.randint(3, 6))] for o in c.split(";")]
+        lines.append(f"id=c09-big-{k} {BIG} sched={sched_for(rnd, 16, 2)} ops=" + ";".join(["reset", "init,0000"] + seq + ["refresh"]))
+        k += 1
+    return lines
+
+
 def gen_c09(tier, seed):
-    return gen_histories(tier, seed, "c09")
+    out = gen_histories(tier, seed, "c09")
+    big = big_c09_lines(tier, seed)
+    out["v3"] = out["v3"] + big
+    out.setdefault("stats", {})["big_panel_lines"] = len(big)
+    return out
 
 
 def gen_c12(tier, seed):
@@ -340,6 +398,10 @@ def gen_c01(tier, seed):
                     emit([f"base,{b}", "disp"])
                 emit(["refresh,quick", f"updisp,pos:{nb}"])
                 emit(["refresh,quick", f"upd,r:2:{nb}", "disp"])
+    # the 12.48in driver: full frames (whole buffer / one row / k rows) on both planes, every configuration
+    big = big_lines("c01", tier, seed, "f")
+    out["v3"] = out["v3"] + big
+    out.setdefault("stats", {})["big_panel_lines"] = len(big)
     return out
 
 
@@ -397,6 +459,10 @@ def gen_c06(tier, seed):
                     for hi, hpre in enumerate(hists):
                         lines.append(PN.line(f"{sid}-h{hi}", p, ["new"] + pre + hpre + ops, sched=sched_for(rnd)))
                         stats["windows"] += 1
+    # the 12.48in driver's partial writes: grid / seam / edge windows and the exact sub-display rectangles
+    big = big_lines("c06", tier, seed, "wq")
+    lines += big
+    stats["big_panel_lines"] = len(big)
     return {"v3": lines, "stats": stats}
 
 
@@ -502,12 +568,13 @@ def gen_c10(tier, seed):
     out = all_ops_lines("c10", tier, seed, lengths=True)
     # the 12.48in driver has its own transport (four chip selects, two D/C lines): every public call,
     # LUT tables of every length class incl. empty, windows on and off the seams
-    big = [l.replace("id=c15-", "id=c10-big-") for l in gen_c15(tier, seed)["v3"]
+    big = [l.replace("id=c15-", "id=c10-big-") for l in gen_c15_core(tier, seed)["v3"]
            if re.match(r"id=c15-(p|m|q|r)", l) or re.match(r"id=c15-w\d\b", l) or re.match(r"id=c15-f[0-3]\b", l)]
     for which in ("c", "ww", "kw", "wk", "kk", "bd"):
         for n in (0, 1, 41, 42, 43, 59, 60, 61):
             big.append(f"id=c10-big-lut-{which}-{n} panel=epd12in48b_v2 delay=none sched=- raise=02,04,12 busylvl=0 fault=- scribble=0 "
                        f"ops=reset;init,0000;lut,{which},r:3:{n};busy;lut,{which},z:{n}")
+    big += fifo_twins(big, every=2 if tier == "quick" else 1)
     out["v3"] = out["v3"] + big
     out.setdefault("stats", {})["big_panel_lines"] = len(big)
     return out
@@ -547,6 +614,13 @@ def gen_c11(tier, seed):
                     out[feat].append(PN.line(f"c11-{feat}-{p.name}-{k}", p, ["new", f"upd,pos:{nb}", "part,r:1:16,8,16,16,8", "part,r:2:16,8,16,16,8"], sched=sched_for(rnd), delay=delay, busylvl=1)); k += 1
                 if p.name == "epd2in13_v2":
                     out[feat].append(PN.line(f"c11-{feat}-{p.name}-{k}", p, ["new", "refresh,quick", "refresh,full", "refresh,full"], sched=sched_for(rnd), delay=delay)); k += 1
+    # the 12.48in driver's own `reset()` (two reset lines), alone, repeated, and after every kind of call
+    BIG = "panel=epd12in48b_v2 delay=none sched=- raise=02,04,12 busylvl=0 fault=- scribble=0"
+    seqs = [["reset"], ["reset", "reset"], ["reset", "init,0000", "reset", "init,0101"], ["reset", "init,0000", "hibernate", "reset", "init,0000"],
+            ["reset", "init,0000", "d1,r:1:163", "refresh", "reset"], ["reset", "init,0000", "poweroff", "reset", "init,0000", "refresh"],
+            ["reset", "init,0000", "status", "reset"], ["reset", "init,0000", "d1p,640,488,16,8,r:3:4", "reset", "init,0000"]]
+    for j, ops in enumerate(seqs):
+        out["v3"].append(f"id=c11-big-{j} {BIG} ops=" + ";".join(ops))
     return out
 
 
@@ -813,7 +887,7 @@ def widen_hist(panel_names, tier, seed):
     return lines
 
 
-def gen_c15(tier, seed):
+def gen_c15_core(tier, seed):
     """the 12.48in driver: windows on a grid + every seam / edge straddle, buffers of 1 row, k rows
     and the whole window, both planes, all 32 configurations; every public call for pin release"""
     rnd = random.Random(seed * 7919 + 15)
@@ -929,6 +1003,14 @@ def gen_c15(tier, seed):
         seq = [rnd.choice(calls + ["d1p,640,488,16,8,r:1:4", "d2,r:2:326"]) for _ in range(rnd.randint(3, 7))]
         lines.append(bline(f"c15-m{j}", ["reset", "init,0000"] + seq, sched=sched_for(rnd, 16, 3)))
     return {"v3": lines, "stats": stats}
+
+
+def gen_c15(tier, seed):
+    g = gen_c15_core(tier, seed)
+    tw = fifo_twins(g["v3"], every=3 if tier == "quick" else 1)
+    g["v3"] = g["v3"] + tw
+    g["stats"]["buffered_bus_twins"] = len(tw)
+    return g
 
 
 def _mk(gen, props, view, rule, feats=("v3",), assumptions=()):
